@@ -228,6 +228,43 @@ def run_case(case, w):
             got = outcome(pr.cpu_percent, bad)
             if not (got[0] == "exc" and got[1] == "ValueError"):
                 viols.append(("Process.cpu_percent:negative-interval", repr(got)))
+    elif k == "other-kernel":
+        # a program that turns to the procfs of ANOTHER machine generation (psutil.PROCFS_PATH; fewer / more CPU-time columns)
+        # after it has sampled: whatever the first call after the switch answers, the calls after it compare two samples of
+        # the new tree and are exact again
+        nf1, nf2 = case[1], case[2]
+        base = [1000 * (j + 1) for j in range(10)]
+        s1 = [[b + d for b, d in zip(base, [10, 0, 5, 85, 0, 0, 0, 0, 0, 0])]]
+        s2 = [[b + d for b, d in zip(s1[0], [75, 0, 0, 25, 0, 0, 0, 0, 0, 0])]]
+        s3 = [[b + d for b, d in zip(s2[0], [20, 0, 30, 50, 0, 0, 0, 0, 0, 0])]]
+        psutil._pslinux.set_scputimes_ntuple.cache_clear()
+        for dct in (psutil._last_cpu_times, psutil._last_per_cpu_times, psutil._last_cpu_times_2, psutil._last_per_cpu_times_2):
+            dct.clear()
+        saved = (w.procfs, psutil.PROCFS_PATH)
+        try:
+            set_stat(w, [list(base)], nf1)
+            outcome(psutil.cpu_percent, None)
+            outcome(psutil.cpu_times_percent, None)
+            set_stat(w, s1, nf1)
+            outcome(psutil.cpu_percent, None)
+            w.procfs = "/mnt/other-generation/proc"
+            psutil.PROCFS_PATH = w.procfs
+            set_stat(w, s1, nf2)
+            outcome(psutil.cpu_percent, None)            # (first call after the switch: not judged)
+            outcome(psutil.cpu_times_percent, None)
+            for a, b in ((s1, s2), (s2, s3)):
+                set_stat(w, b, nf2)
+                got = outcome(psutil.cpu_percent, None)
+                d, tot, busy = ref_percent(a[0], b[0], nf2)
+                exp = round(100.0 * busy / tot, 1)
+                if got[0] != "ok" or abs(got[1] - exp) > 0.05 + 1e-9:
+                    viols.append(("cpu_percent:after-turning-to-another-procfs", "%d -> %d columns: got %r expected %r" % (nf1, nf2, got, exp)))
+                got = outcome(psutil.cpu_times_percent, None)
+                if got[0] != "ok" or len(got[1]) != nf2:
+                    viols.append(("cpu_times_percent:after-turning-to-another-procfs", "%d -> %d columns: got %r" % (nf1, nf2, freeze(got))))
+        finally:
+            w.procfs, psutil.PROCFS_PATH = saved
+            psutil._pslinux.set_scputimes_ntuple.cache_clear()
     elif k == "foreign":
         # a thread that was not created through the threading module (C extension / embedding / _thread.start_new_thread)
         # is a calling thread like any other: measured against ITS OWN previous sample, whatever other threads do in between
@@ -290,7 +327,7 @@ def worker(chunk):
 
 
 def build_cases(thorough):
-    cases = [("neg",), ("foreign",)]
+    cases = [("neg",), ("foreign",), ("other-kernel", 10, 8), ("other-kernel", 8, 10), ("other-kernel", 10, 9)]
     # scale: the per-CPU section of /proc/stat longer than one read buffer (hundreds of CPUs, long-uptime counters)
     big = [[10 ** 11 + (c + 1) * 100003 + 7 * i for i in range(10)] for c in range(600)]
     cases.append(("times", big, 10))
